@@ -269,7 +269,9 @@ def K_orthonormalize(ex, st, node, args, kw):
         raise Unsupported('receiver')
     st.env[recv.id] = psi2
     st.env['#psi1'] = psi2
-    return ZScal('real')
+    nrm = ZScal('real')
+    st.env['#nrm'] = nrm          # the callee's result: the norm of the input state (sweep contract of orthonormalize)
+    return nrm
 
 def K_right_blocks(ex, st, node, args, kw):
     """shape face of compute_right_operator_blocks (value = right fold: vt/zfold.py; block shapes from the step contracts)"""
@@ -388,7 +390,8 @@ def tdvp_singlesite_contract():
         psi = env['psi']
         return [('shape_part_of_class_invariant', wf_shape(psi, d)),
                 ('no_bond_dimension_exceeds_the_input', le_input(psi)),
-                ('hamiltonian_shapes_untouched', z3.BoolVal(env['H'] is H))]
+                ('hamiltonian_shapes_untouched', z3.BoolVal(env['H'] is H)),
+                ('returns_the_norm_of_the_input_state', z3.BoolVal(ret is env.get('#nrm')))]
     return dict(fn=fn, env={'H': H, 'psi': psi0, 'dt': ZScal(), 'numsteps': numsteps, 'numiter_lanczos': 25}, pre=pre, inv=inv, carried=['psi', 'BL', 'BR'], post=post,
                 skip_asserts=['is_qsparse(BR[i], [psi.qD[i + 1], H.qD[i + 1], -psi.qD[i + 1]])'])
 
@@ -428,7 +431,7 @@ def twosite_contract(kind):
     else:
         inv['for i in reversed(range(L - 1))'] = lambda e, c, i: z3.And(base(e), br_valid(e, L - 1 - c), bl_valid(e, L - 2 - c))
     return dict(fn=fn, env=env, pre=c0['pre'] + [L >= 2], inv=inv, carried=['psi', 'BL', 'BR'],
-                post=lambda ret, e: [('shape_part_of_class_invariant', wf_shape(e['psi'], d))], skip_asserts=c0['skip_asserts'],
+                post=lambda ret, e: [('shape_part_of_class_invariant', wf_shape(e['psi'], d))] + ([('returns_the_norm_of_the_input_state', z3.BoolVal(ret is e.get('#nrm')))] if kind == 'tdvp' else []), skip_asserts=c0['skip_asserts'],
                 assume_asserts=['L >= 2'])
 
 
